@@ -94,6 +94,7 @@ class CFG:
         self.pred = {}
         self._loops = []     # stack of (head node, break list)
         self._tries = []     # stack of handler-entry node lists
+        self.back_edges = set()
         self.entry = self._new('entry', fnode, fnode)
         self.exit = self._new('exit', fnode, fnode)
         self.xexit = self._new('xexit', fnode, fnode)
@@ -169,7 +170,9 @@ class CFG:
             body_out = self._block(st.body, [(t, 'true')] if truth is not False else [])
             _, breaks = self._loops.pop()
             for a, _l in body_out:
-                self._edge(a, t, 'back')
+                # keep the polarity of the edge (an `if` whose false side falls off the loop body); remember that it is a back edge
+                self._edge(a, t, _l)
+                self.back_edges.add((a, t))
             out = self._block(st.orelse, [(t, 'false')] if truth is not True else [])
             return out + breaks
         if isinstance(st, (ast.For, ast.AsyncFor)):
@@ -179,7 +182,9 @@ class CFG:
             body_out = self._block(st.body, [(t, 'iter')])
             _, breaks = self._loops.pop()
             for a, _l in body_out:
-                self._edge(a, t, 'back')
+                # keep the polarity of the edge (an `if` whose false side falls off the loop body); remember that it is a back edge
+                self._edge(a, t, _l)
+                self.back_edges.add((a, t))
             out = self._block(st.orelse, [(t, 'done')])
             return out + breaks
         if isinstance(st, ast.Break):
@@ -417,7 +422,7 @@ class CFG:
     def loop_body(self, head):
         """natural loop of the header `head`: nodes that reach one of its back edges without
         passing through the header"""
-        latches = [p for p, lab in self.pred[head] if lab in ('back', 'continue')]
+        latches = [p for p, lab in self.pred[head] if (p, head) in self.back_edges or lab == 'continue']
         body = {head}
         todo = list(latches)
         while todo:
